@@ -11,8 +11,8 @@ SCEN = 'scen_lifecycle'
 
 def keyfn(case, res, m):
     """finding key = monitor rule + scenario class"""
-    if 'proc' in case:      # E4 (real processes)
-        return f"{m['rule']}:proc:{m.get('klass', case['proc'].get('klass', '-'))}"
+    if 'proc' in case:      # E4 (real processes): class = diagnosis of who is still alive / where it is blocked
+        return f"{m['rule']}:proc:{m.get('klass') or case['proc'].get('klass', '-')}"
     return f"{m['rule']}:thread"
 
 
@@ -92,6 +92,18 @@ def run(chk):
         chk.account(scen, res2, 'E1-detsched')
         chk.collect_monitors(res2, {'C11'}, keyfn)
         chk.notes.append(f'correspondence broke on {len(chk.corr_breaks)} cases; escalated search over {len(more)} more cases')
+    # ---- E4: trees with ProcessServlets, real processes (OS schedule, sampled) ----------------------------
+    scen_proc = importlib.import_module('scen_lifecycle_proc')
+    pcases = scen_proc.gen_cases(chk.rng, chk.tier)
+    presults = chk.run_cases('scen_lifecycle_proc', pcases, sched=False, per_case_timeout=400.0)
+    chk.account(scen_proc, presults, 'E4-processes')
+    chk.collect_monitors(presults, {'C11'}, keyfn)
+    pd = {}
+    for case, res in presults:
+        kk = case['proc']['klass']
+        pd[kk] = pd.get(kk, 0) + 1
+        pd['max_t_exit_s'] = max([pd.get('max_t_exit_s', 0.0)] + list(res.get('t_exit') or []))
+    chk.cov['distribution']['E4'] = pd
     chk.add_obligation('correspondence', 'lifecycle: start order/error/survivors == startServer; every queue put/get and join of '
                        'the real Server replayed through Lifecycle.step (E1, thread servlets)', not chk.corr_breaks)
     chk.cov['rule'] = ('cases = fixed boundary set (8 tree shapes x every failing worker position) + random (servlet tree of depth<=2 '
@@ -99,7 +111,11 @@ def run(chk):
                        'workloads of calls (failing / timed-out) and streams (abandoned early), chooser, seed), each run as: [failing '
                        '__enter__] -> enter -> workload -> exit -> re-enter -> workload + follow-up call -> exit on the real Server under '
                        'the deterministic scheduler; non-trivial = >= 1 context switch and >= 6 queue/join events replayed through the '
-                       'model; distinct = distinct (case, event trace)')
+                       'model; distinct = distinct (case, event trace).  E4: fixed classes on real processes (failing worker index x 5 tree '
+                       'shapes with ProcessServlets; abandoned stream of 300-1000 x 1-4 kB inputs > pipe buffer; 50 kB intermediate results '
+                       'with one / three first-stage workers; small workloads on ensemble/switch/sequence shapes), each: [failing enter] -> '
+                       'enter -> stream (abandoned) -> exit (hang bound 20 s) -> re-enter -> stream + call -> exit, children/threads '
+                       'counted against the baseline')
     chk.trusted += TRUSTED
     chk.assumptions += ASSUMPTIONS
 
